@@ -181,7 +181,8 @@ func main() {
 		case "READ":
 			k, _ := strconv.Atoi(t[1])
 			data := unhex(t[2])
-			res = withDeadline(5*time.Second, func() string {
+			// the deadline grows with the input: 5 s plus 1 s per MiB (a 64 MiB file of blank lines takes ~8 s here)
+			res = withDeadline(5*time.Second+time.Duration(len(data)>>20)*time.Second, func() string {
 				f, _, err := bebop.ReadFile(&failAtR{data: data, k: k})
 				if err != nil {
 					return "ERR"
